@@ -520,6 +520,22 @@ func (r *c14run) streams(g *c14gen, run func(string) error) error {
 		if err := run(fmt.Sprintf("S %d %d %d %s", pver, ebs, main, strings.Join(parts, ";"))); err != nil {
 			return err
 		}
+		// the same stream through a reader that returns short reads
+		if i%2 == 0 {
+			k := []int{1, 7, 1460, 16384, 2, 24, 25}[g.r.Intn(7)]
+			if err := run(fmt.Sprintf("T %d %d %d %d %s", pver, ebs, main, k, strings.Join(parts, ";"))); err != nil {
+				return err
+			}
+		}
+	}
+	// large frames (payloads above 1 MiB included) followed by a ping, through short reads
+	ping := hex.EncodeToString(c14Frame(main, []byte("ping"), []byte{1, 2, 3, 4, 5, 6, 7, 8}))
+	for _, big := range []string{"inv:30000", "inv:50000", "getdata:29128", "notfound:29127", "headers:2000", "addr:1000", "inv:29200"} {
+		for _, k := range []int{1, 7, 1460, 16384} {
+			if err := run(fmt.Sprintf("T 70013 %d %d %d @%s;%s", prod, main, k, big, ping)); err != nil {
+				return err
+			}
+		}
 	}
 	return nil
 }
